@@ -135,8 +135,12 @@ func (ex *Exec) branch(c *Term, what string) bool {
 		ex.trace = append(ex.trace, fmt.Sprintf("%s=%d", what, d))
 		return d == 1
 	}
+	ex.sol.what = "branch " + what
 	rt := ex.sat(c)
-	rf := ex.sat(tt.Not(c))
+	rf := "sat" // the path condition is feasible, so if c is impossible its negation is possible
+	if rt != "unsat" {
+		rf = ex.sat(tt.Not(c))
+	}
 	if rt == "unknown" || rf == "unknown" {
 		ex.H.noteUnknown(ex, "branch "+what)
 		// keep both as possibly feasible
@@ -362,6 +366,17 @@ func (ex *Exec) runFunc(fn *ssa.Function, args []Value, caps []Value, site ssa.I
 		panic(&pathEnd{kind: "unwind", msg: "call depth limit in " + fn.String(), pos: ex.posStr()})
 	}
 	defer func() { ex.depth-- }()
+	if isCoroFunc(fn) && fn.Parent() == nil {
+		name := fn.String()
+		if ex.W.entered[name] > 0 && ex.W.mode&modeHavoc != 0 && ex.W.entered[name] > ex.H.opts["retries"] {
+			// tail-recursive retry from a state that is again arbitrary: subsumed by the harness entry state
+			ex.W.cuts++
+			panic(&pathEnd{kind: "cut", msg: "retry of " + fn.Name() + " subsumed by the entry state", pos: ex.posStr()})
+		}
+		ex.W.entered[name]++
+		defer func() { ex.W.entered[name]-- }()
+	}
+	ex.W.funcs[fn.String()] = true
 	fr := &Frame{fn: fn, locals: make(map[ssa.Value]Value, 64), caps: caps, site: site}
 	if len(args) != len(fn.Params) {
 		panic(ex.unsupported("arity mismatch calling %s: %d vs %d", fn, len(args), len(fn.Params)))
